@@ -37,6 +37,7 @@ type prRes struct {
 	Cfg  json.RawMessage `json:"cfg"`
 	Base string          `json:"base"`
 	X    string          `json:"x"`
+	XY   string          `json:"xy"`
 	G    string          `json:"g"`
 	Rev  bool            `json:"rev"`
 }
@@ -97,6 +98,9 @@ func prBuildResult(r *prRes, i int) (*benchfmt.Result, error) {
 	name := r.Base
 	if r.X != "" {
 		name += "/x=" + r.X
+	}
+	if r.XY != "" {
+		name += "/xy=" + r.XY
 	}
 	if r.G != "" {
 		name += "-" + r.G
